@@ -369,6 +369,45 @@ func c17Case(g *Gen, p *ir.Program) {
 		n = strconv.Itoa(len(p.Temporaries))
 	}
 	g.Line("c17", dump, n)
+	if err != nil || n == "panic" || g.notesViolation() {
+		return
+	}
+	// history (1): the allocated program is cloned and the clone is allocated — the clone declares what
+	// it needs, not what the original declared
+	if g.N%3 == 0 {
+		m := "err"
+		if pn := safe(func() {
+			q := p.Clone()
+			if e := a.Execute(q); e == nil {
+				m = strconv.Itoa(len(q.Temporaries))
+			}
+		}); pn != "" {
+			m = "panic"
+		}
+		g.Count("clone-allocate")
+		if m != n {
+			g.Notes = append(g.Notes, fmt.Sprintf("VIOLATION: program %s declares %s temporaries; its clone, allocated afterwards, declares %s", dump, n, m))
+			return
+		}
+	}
+}
+
+// c17EvalTruncate: history (2) — a program is evaluated (pass.Eval, what acc.LoadString does), cut back to
+// its first k instructions and then allocated: the temporaries are those of the k instructions.
+func c17EvalTruncate(g *Gen, p *ir.Program) {
+	if len(p.Instructions) < 3 {
+		return
+	}
+	if safe(func() { _ = pass.Eval(p) }) != "" {
+		return
+	}
+	k := 1 + g.R.Intn(len(p.Instructions)-1)
+	p.Instructions = p.Instructions[:k]
+	if !c05WellFormed(p) {
+		return
+	}
+	g.Count("eval-truncate-allocate")
+	c17Case(g, p)
 }
 
 // emitters: how one generated program becomes case lines.
@@ -385,7 +424,16 @@ func c05Emit(g *Gen, p *ir.Program, allCfgs bool) {
 	c05Case(g, p, c05Cfgs[g.R.Intn(len(c05Cfgs))], x)
 }
 
-func c17Emit(g *Gen, p *ir.Program, _ bool) { c17Case(g, p) }
+func c17Emit(g *Gen, p *ir.Program, _ bool) {
+	var q *ir.Program
+	if g.N%5 == 0 {
+		q = p.Clone()
+	}
+	c17Case(g, p)
+	if q != nil {
+		c17EvalTruncate(g, q)
+	}
+}
 
 // c05Shared rebuilds p with exactly one operand object per index (shared between the defining
 // output and all reads), the shape acc.Translate produces for named values.
